@@ -66,13 +66,19 @@ class _Decomp(object):
         self.state = 'head'   # head | marker | byte | eof
         self.eof = False
         self.unused_data = b''
+        self.unconsumed_tail = b''
 
-    def decompress(self, data):
+    def decompress(self, data, max_length=0):
+        """zlib's optional max_length: at most that many output bytes are returned, the input not yet consumed is kept in unconsumed_tail"""
         self.rec.calls.append(('decompress', data))
         if self.eof and not self.reusable_after_eof:
             raise CodecError('cannot use a decompressobj multiple times')
         out = []
-        for b in data:
+        self.unconsumed_tail = b''
+        for pos, b in enumerate(data):
+            if max_length and len(out) >= max_length:
+                self.unconsumed_tail = bytes(data[pos:])
+                break
             if self.state == 'head':
                 if b != self.header[self.pos]:
                     raise ValueError('bad header')
